@@ -17,10 +17,13 @@ package geo
 // spans all longitudes. d = (dist + 0.07 m) / mean earth radius.
 //@ assume func math.Sin(x)
 //@   pure
+//@   ensures implies(isNaN(x), isNaN(result))
 //@ assume func math.Cos(x)
 //@   pure
+//@   ensures implies(isNaN(x), isNaN(result))
 //@ assume func math.Asin(x)
 //@   pure
+//@   ensures implies(isNaN(x), isNaN(result))
 //@ assume func math.Max(x, y)
 //@   pure
 //@   ensures implies(x > y, result == x) && implies(y > x, result == y) && implies(x == y, result == x || result == y)
